@@ -1,14 +1,20 @@
 (* C11 -- Windowed and stateful streams equal a fold over the batch history.
-   Only statements, each closed by [exact] of a lemma from PV.Proofs.Window*.
+   Only statements, each closed by [exact] of a lemma from PV.Proofs.Window and WindowSpec, WindowCount, WindowState.
 
-   Vocabulary (PV.Model.Window, PV.Proofs.WindowSpec):
+   Vocabulary (PV.Model.Window and the Proofs files):
      a program is the list of streams in registration order (ssc._dstreams); [final g ts] is the state after the
-     tick callback ran at the clock values ts; [increasing 0 ts] says they are positive and strictly increasing;
-     [rdd_of st i] is stream i's _current_rdd (RNone = Python None); [obs_of r] is what a consumer sees when it
-     collects r (None for RNone); [batches q n] are the batches of intervals 1..n of the queue q ([] once the
-     queue is exhausted); [lastn k l] the last k elements of l (all of l when it is shorter). *)
+     tick callback ran at the clock values ts, [run_graph g ts] also returns the exception (if any) that ended
+     each tick; [increasing 0 ts]: the clock values are positive and strictly increasing (interval n = n-th tick);
+     [rdd_of st i] is stream i's _current_rdd (RNone = Python None, REmpty = EmptyRDD); [obs_of r] is what a
+     consumer sees when it collects r (None for RNone); [batches q n] are the batches of intervals 1..n of the
+     queue q ([] once the queue is exhausted); [lastn k l] the last k elements of l (all of l when shorter);
+     [glog st] the captures (tick time, consumer, collected) of the foreachRDD consumers in the order they happen.
+   In the any-tail theorems [tail] is ANY list of streams registered after the stream the theorem is about
+   (consumers, consumers of consumers, further windows, ... in any number): however many of them step that stream
+   in a tick, and whatever they raise, its state is the same -- this is the "one or several consumers" clause. *)
 From Coq Require Import ZArith NArith Bool String List.
-Require Import PV.Base.Val PV.Gen.Window PV.Model.Window PV.Proofs.Window PV.Proofs.WindowSpec.
+Require Import PV.Base.Val PV.Gen.Window PV.Model.Window.
+Require Import PV.Proofs.Window PV.Proofs.WindowSpec PV.Proofs.WindowCount PV.Proofs.WindowState.
 Import ListNotations.
 Open Scope Z_scope.
 Open Scope list_scope.
@@ -18,12 +24,16 @@ Open Scope list_scope.
 Theorem C11_step_order : win_step_order = [0; 1; 2; 3; 4; 5; 6; 7].
 Proof. exact win_step_order_ok. Qed.
 
-(* ---- window_spec.  The windowed stream is stream 1 on the queue source 0; [tail] is ANY list of streams
-   registered after it (consumers, consumers of consumers, other windows ...): however many of them step the
-   window in a tick, its state is the same. ---- *)
+(* a stream whose guard time has reached t is not changed by anything that is stepped at time t *)
+Theorem C11_guard_freezes : forall fuel g i t st j ns,
+  nth_error (gnodes st) j = Some ns -> t <= ntime ns ->
+  nth_error (gnodes (fst (step fuel g i t st))) j = Some ns.
+Proof. exact step_frozen. Qed.
 
-(* at an interval n that is a multiple of the slide, the RDD is the in-order concatenation of the last
-   min w n batches *)
+(* ================= window_spec ================= *)
+
+(* at an interval n that is a multiple of the slide, the windowed stream's RDD is the in-order concatenation of
+   the last min w n batches *)
 Theorem C11_window_spec_emits : forall q w s tail, 0 < s -> forall ts,
   increasing 0 ts -> (0 < length ts)%nat -> Z.of_nat (length ts) mod s = 0 ->
   obs_of (rdd_of (final (Src q :: Window w s 0 :: tail) ts) 1)
@@ -47,7 +57,7 @@ Theorem C11_window_spec_before_first : forall q w s tail, 0 < s -> forall ts,
 Proof. exact window_spec_before_first. Qed.
 
 (* the buffer holds the RDD of each of the last min w n intervals exactly once, the slide counter is n mod s
-   and the guard time is the last tick's, whatever is registered after the window *)
+   and the guard time is the last tick's *)
 Theorem C11_window_buffer : forall q w s tail, 0 < s -> forall ts ns,
   increasing 0 ts -> nth_error (gnodes (final (Src q :: Window w s 0 :: tail) ts)) 1 = Some ns ->
   nbuf ns = lastn (Z.to_nat w) (src_rdds q (length ts)) /\ nctr ns = Z.of_nat (length ts) mod s
@@ -55,23 +65,150 @@ Theorem C11_window_buffer : forall q w s tail, 0 < s -> forall ts ns,
 Proof. exact window_buffer. Qed.
 
 (* what k consumers attached to the windowed stream observe: no tick raises, and the log is, tick after tick,
-   one capture per consumer, all equal to the window's RDD of that interval *)
+   one capture per consumer, all equal to the window's RDD of that interval (window_log / cons_log) *)
 Theorem C11_window_consumers : forall q w s k, 0 < s -> forall ts, increasing 0 ts ->
   run_graph (prog_window q w s k) ts = (final (prog_window q w s k) ts, map (fun _ => None) ts) /\
   glog (final (prog_window q w s k) ts) = window_log q w s k 0 ts.
-Proof. exact window_program_log. Qed.
+Proof. exact window_consumers. Qed.
 
-(* non-vacuity / sanity: the doctest of DStream.window and the history of the repaired defect *)
+(* ================= countByWindow_spec ================= *)
+(* countByWindow(w, s) = window(w, s) followed by the three transformed streams of count(); stream 4 is the one
+   returned to the user.  At an emitting interval it holds the number of elements of the window -- [count_obs]:
+   [n] in general, and nothing at all when the whole window lies behind the end of the queue (count() of an
+   EmptyRDD is an empty RDD). *)
+Theorem C11_countByWindow_spec_emits : forall q w s tail, 0 < s -> forall ts,
+  increasing 0 ts -> (0 < length ts)%nat -> Z.of_nat (length ts) mod s = 0 ->
+  obs_of (rdd_of (final (Src q :: Window w s 0 :: Trans FCountParts 1 :: Trans FSetName 2
+                          :: Trans FReduceAdd 3 :: tail) ts) 4)
+  = Some (count_obs q w (length ts)).
+Proof. exact count_spec_emits. Qed.
+
+Theorem C11_count_obs_counts : forall q w n,
+  count_obs q w n = if window_exhausted q w n then []
+                    else [VInt (Z.of_nat (length (concat (lastn (Z.to_nat w) (batches q n)))))].
+Proof. exact (fun q w n => eq_refl). Qed.
+
+Theorem C11_window_exhausted_spec : forall q w n,
+  window_exhausted q w n = true <-> forall i, (n - Z.to_nat w <= i < n)%nat -> (length q <= i)%nat.
+Proof. exact window_exhausted_spec. Qed.
+
+Theorem C11_countByWindow_spec_unchanged : forall q w s tail, 0 < s -> forall ts t,
+  increasing 0 (ts ++ [t]) -> Z.of_nat (S (length ts)) mod s <> 0 ->
+  rdd_of (final (Src q :: Window w s 0 :: Trans FCountParts 1 :: Trans FSetName 2
+                  :: Trans FReduceAdd 3 :: tail) (ts ++ [t])) 4
+  = rdd_of (final (Src q :: Window w s 0 :: Trans FCountParts 1 :: Trans FSetName 2
+                    :: Trans FReduceAdd 3 :: tail) ts) 4.
+Proof. exact count_spec_unchanged. Qed.
+
+(* what k consumers of countByWindow observe, and which ticks raise: the ticks before the first emission end
+   with AttributeError (the window's RDD is None) and log nothing; every later tick logs one capture per
+   consumer of the count stream's RDD *)
+Theorem C11_countByWindow_consumers : forall q w s k, 0 < s -> forall ts, increasing 0 ts ->
+  run_graph (prog_count q w s k) ts = (final (prog_count q w s k) ts, count_errors (win_rdd_spec q w s) 0 ts) /\
+  glog (final (prog_count q w s k) ts) = count_log (win_rdd_spec q w s) k 0 ts.
+Proof. exact count_consumers. Qed.
+
+Theorem C11_window_none_iff_early : forall q w s n, 0 < s ->
+  is_none_rdd (win_rdd_spec q w s n) = (Z.of_nat n <? s).
+Proof. exact is_none_win_rdd_spec. Qed.
+
+(* ================= state_spec ================= *)
+(* The queue holds keyed batches kq (encoded as (key, value) tuples); [vals k b] are the values of key k in batch
+   b, in order; [fold_key u k bs s0] folds u over the value lists of k in the batches bs ([] when absent).
+   A consumer that collects the state stream (stream 1) after interval n decodes a list l of (key, state) pairs
+   with distinct keys, in which ... *)
+
+(* ... a key first mentioned in batch b (earlier batches: pre, later ones: post) has the state obtained by folding
+   the update function from that first interval to n, starting from None *)
+Theorem C11_state_spec : forall u kq tail ts k pre b post,
+  increasing 0 ts -> (0 < length ts)%nat ->
+  kbatches kq (length ts) = pre ++ b :: post ->
+  (forall b', In b' pre -> vals k b' = []) -> vals k b <> [] ->
+  exists l, rdd_of (final (Src (enc_queue kq) :: Stateful u 0 :: tail) ts) 1 = RData (map enc_kv l) /\
+            NoDup (map fst l) /\
+            vals k l = [fold_key u k (b :: post) VNone].
+Proof. exact state_spec_seen. Qed.
+
+(* ... a key never mentioned has no entry *)
+Theorem C11_state_spec_unseen : forall u kq tail ts k,
+  increasing 0 ts -> (0 < length ts)%nat ->
+  (forall b, In b (kbatches kq (length ts)) -> vals k b = []) ->
+  exists l, rdd_of (final (Src (enc_queue kq) :: Stateful u 0 :: tail) ts) 1 = RData (map enc_kv l) /\
+            vals k l = [].
+Proof. exact state_spec_unseen. Qed.
+
+(* the state RDD after n intervals is [state_after u kq n]: its keys are exactly the keys mentioned so far, and
+   keys never disappear *)
+Theorem C11_state_rdd : forall u kq tail ts, increasing 0 ts -> (0 < length ts)%nat ->
+  rdd_of (final (Src (enc_queue kq) :: Stateful u 0 :: tail) ts) 1
+  = RData (map enc_kv (state_after u kq (length ts))).
+Proof. exact state_collected. Qed.
+Theorem C11_state_keys : forall u kq n k,
+  In k (map fst (state_after u kq n)) <-> exists b, In b (kbatches kq n) /\ In k (map fst b).
+Proof. exact state_keys_exact. Qed.
+Theorem C11_state_keys_persist : forall u kq n k,
+  In k (map fst (state_after u kq n)) -> In k (map fst (state_after u kq (S n))).
+Proof. exact state_keys_persist. Qed.
+
+(* the reading "folded over intervals 1..t": for update functions that treat u [] None like "no state" it
+   coincides with the fold from the key's first interval ... *)
+Theorem C11_state_spec_from_interval_1 : forall u kq tail ts k pre b post,
+  no_state_like u ->
+  increasing 0 ts -> (0 < length ts)%nat ->
+  kbatches kq (length ts) = pre ++ b :: post ->
+  (forall b', In b' pre -> vals k b' = []) -> vals k b <> [] ->
+  exists l, rdd_of (final (Src (enc_queue kq) :: Stateful u 0 :: tail) ts) 1 = RData (map enc_kv l) /\
+            NoDup (map fst l) /\
+            vals k l = [fold_key u k (kbatches kq (length ts)) VNone].
+Proof. exact state_spec_from_start. Qed.
+(* ... and the four library functions are of that kind *)
+Theorem C11_library_no_state_like :
+  no_state_like u_sum /\ no_state_like u_last /\ no_state_like u_count /\ no_state_like u_append.
+Proof. exact (conj u_sum_no_state (conj u_last_no_state (conj u_count_no_state u_append_no_state))). Qed.
+
+(* what k consumers of the state stream observe: no tick raises; one capture per consumer and tick, all equal to
+   the state RDD of that interval (the state advances once per tick however many consumers there are) *)
+Theorem C11_state_consumers : forall u kq k ts, increasing 0 ts ->
+  run_graph (prog_state (enc_queue kq) u k) ts
+  = (final (prog_state (enc_queue kq) u k) ts, map (fun _ => None) ts) /\
+  glog (final (prog_state (enc_queue kq) u k) ts) = cons_log (state_rdd u kq) k 0 ts.
+Proof. exact stateful_consumers. Qed.
+
+(* ================= non-vacuity / sanity ================= *)
+Example increasing_example : increasing 0 [1; 2; 4; 7].
+Proof. cbn. repeat split; reflexivity. Qed.
+(* the doctest of DStream.window *)
 Example window_doctest :
   let q := map (fun z => [VInt z]) [1; 2; 3; 4; 5; 6] in
   map (fun e => snd e) (glog (final (prog_window q 3 1 1) [1; 2; 3; 4; 5; 6]))
   = map (fun l => Some (map VInt l)) [[1]; [1; 2]; [1; 2; 3]; [2; 3; 4]; [3; 4; 5]; [4; 5; 6]].
 Proof. vm_compute. reflexivity. Qed.
+(* the history of the repaired defect: slide 2, two consumers *)
 Example window_slide2_two_consumers :
   let q := map (fun z => [VInt z]) [1; 2; 3; 4; 5] in
   map (fun e => snd e) (glog (final (prog_window q 3 2 2) [1; 2; 3; 4]))
   = [None; None; Some [VInt 1; VInt 2]; Some [VInt 1; VInt 2]; Some [VInt 1; VInt 2]; Some [VInt 1; VInt 2];
      Some [VInt 2; VInt 3; VInt 4]; Some [VInt 2; VInt 3; VInt 4]].
 Proof. vm_compute. reflexivity. Qed.
-Example increasing_example : increasing 0 [1; 2; 4; 7].
-Proof. cbn. repeat split; reflexivity. Qed.
+(* the doctest of countByWindow; and a slide of 2: the first tick raises *)
+Example count_doctest :
+  let q := map (map VInt) [[1; 1; 5]; [5; 5; 2; 4]; [1; 2]] in
+  map (fun e => snd e) (glog (final (prog_count q 2 1 1) [1; 2; 3]))
+  = [Some [VInt 3]; Some [VInt 7]; Some [VInt 6]].
+Proof. vm_compute. reflexivity. Qed.
+Example count_slide2_raises :
+  let q := map (map VInt) [[1; 1]; [2]] in
+  snd (run_graph (prog_count q 2 2 1) [1; 2]) = [Some "AttributeError"%string; None].
+Proof. vm_compute. reflexivity. Qed.
+(* the second doctest of updateStateByKey (sum), keys 0 = 'a', 1 = 'b' *)
+Example state_doctest :
+  let kq := [[(0, VInt 1)]; [(0, VInt 2); (1, VInt 4); (1, VInt 3)]] in
+  state_after u_sum kq 2 = [(0, VInt 3); (1, VInt 7)].
+Proof. vm_compute. reflexivity. Qed.
+(* the hypotheses of C11_state_spec are satisfiable: key 1 first appears in the second batch *)
+Example state_spec_instance :
+  let kq := [[(0, VInt 1)]; [(0, VInt 2); (1, VInt 4); (1, VInt 3)]; []] in
+  kbatches kq 3 = [[(0, VInt 1)]] ++ [(0, VInt 2); (1, VInt 4); (1, VInt 3)] :: [[]] /\
+  vals 1 [(0, VInt 1)] = [] /\ vals 1 [(0, VInt 2); (1, VInt 4); (1, VInt 3)] <> [] /\
+  fold_key u_sum 1 ([(0, VInt 2); (1, VInt 4); (1, VInt 3)] :: [[]]) VNone = VInt 7.
+Proof. vm_compute. repeat split. discriminate. Qed.
